@@ -44,3 +44,69 @@ package rac
 //@   loop 2 invariant wf(b) && unchanged(b.curr) && unchanged(b.prev) && b.p == len(b.prev) && math(n) == math(len(b.prev)) - math(old(b.p))
 //@   loop 2 invariant forall(k, 0, (len(b.prev) - old(b.p)) + i, old(view(b, k)) == 0)
 //@   loop 2 decreases len(b.curr) - i
+
+// ---- chunk_reader.go: node layout (RAC spec, "Branch Nodes") ----
+
+//@ spec u48(b []byte) int64 = int64(b[0]) + int64(b[1])*256 + int64(b[2])*65536 + int64(b[3])*16777216 + int64(b[4])*4294967296 + int64(b[5])*1099511627776
+
+//@ func u48LE
+//@   prop C15 C14
+//@   mode bv
+//@   pure
+//@   requires len(b) >= 8
+//@   ensures result == u48(b)
+
+//@ func u64LE
+//@   prop C15
+//@   mode bv
+//@   pure
+//@   requires len(b) >= 8
+//@   ensures math(result) == math(u48(b)) + math(b[6])*281474976710656 + math(b[7])*72057594037927936
+
+//@ spec ar(b *rNode) int = int(b[3])
+//@ spec dptr(b *rNode, i int) int64 = ite(i == 0, 0, u48(b[8*i:]))
+//@ spec cptr(b *rNode, i int) int64 = u48(b[8*i+8*ar(b)+8:])
+//@ spec ttag(b *rNode, i int) byte = b[8*i+7]
+//@ spec stag(b *rNode, i int) byte = b[8*i+8*ar(b)+15]
+
+// V is the structural part of the RAC specification's "Branch Node Validation"
+// (checksum and codec pattern are separate, see valid's contract).
+//@ spec V(b *rNode) bool = b != nil && b[0] == 0x72 && b[1] == 0xC3 && b[2] == 0x63 && b[3] != 0 && b[16*ar(b)+15] == b[3] && b[8*ar(b)+6] == 0 && b[16*ar(b)+14] != 0 && forall(i, 0, ar(b), b[8*i+6] == 0 && !(0xC0 <= ttag(b, i) && ttag(b, i) < 0xFD)) && exists(i, 0, ar(b), ttag(b, i) != 0xFD) && forall(i, 0, ar(b), dptr(b, i) <= dptr(b, i+1)) && forall(i, 0, ar(b), implies(ttag(b, i) == 0xFD, dptr(b, i) == dptr(b, i+1))) && forall(i, 0, ar(b), implies(ttag(b, i) != 0xFD, cptr(b, i) <= cptr(b, ar(b))))
+
+//@ func (*rNode).findChunkContaining
+//@   prop C15 C14
+//@   requires V(b) && 0 <= dBias && dBias <= 281474976710656 && dBias <= dOff && dOff < dBias + dptr(b, ar(b))
+//@   ensures 0 <= result && result < ar(b)
+//@   ensures dBias + dptr(b, result) <= dOff && dOff < dBias + dptr(b, result+1)
+//@   pure
+//@   loop 1 invariant 0 <= lo && lo <= hi && hi <= ar(b)
+//@   loop 1 invariant implies(lo > 0, dBias + dptr(b, lo-1) <= dOff)
+//@   loop 1 invariant dOff < dBias + dptr(b, hi)
+//@   loop 1 decreases hi - lo
+
+//@ func (*rNode).valid
+//@   prop C15
+//@   pure
+//@   ensures implies(result, V(b))
+//@   loop 1 invariant 0 <= i && i <= arity && arity == ar(b) && arity >= 1
+//@   loop 1 invariant forall(k, 0, i, b[8*k+6] == 0 && !(0xC0 <= ttag(b, k) && ttag(b, k) < 0xFD))
+//@   loop 1 invariant hasChildren == exists(k, 0, i, ttag(b, k) != 0xFD)
+//@   loop 1 decreases arity - i
+//@   loop 2 invariant 1 <= i && i <= arity + 1 && arity == ar(b) && prev == dptr(b, i-1)
+//@   loop 2 invariant forall(k, 0, i-1, dptr(b, k) <= dptr(b, k+1))
+//@   loop 2 invariant forall(k, 0, i-1, implies(ttag(b, k) == 0xFD, dptr(b, k) == dptr(b, k+1)))
+//@   loop 2 decreases arity + 1 - i
+//@   loop 3 invariant 0 <= i && i <= arity && arity == ar(b) && base == 8*arity + 8 && cPtrMax == cptr(b, arity)
+//@   loop 3 invariant forall(k, 0, i, implies(ttag(b, k) != 0xFD, cptr(b, k) <= cptr(b, arity)))
+//@   loop 3 decreases arity - i
+
+//@ func (Codec).Valid
+//@   prop C15
+//@   mode bv
+//@   pure
+
+//@ func (*rNode).codec
+//@   prop C15
+//@   pure
+//@   loop 1 invariant 0 <= j && j <= 4 && arity == ar(b) && cByte <= 0x3F
+//@   loop 1 decreases 4 - j
